@@ -72,7 +72,7 @@ def required(tier):
     b.update({'same-buffer-object-refilled-between-calls': 100, 'real-api:integer-dtype-input:int8': 100, 'real-api:integer-dtype-input:int16': 20, 'real-api:integer-dtype-input:int64': 40})
     b.update({'dist:const': 100, 'dist:nearconst': 20, 'dist:halfint': 10, 'ndim:2': 100, 'len:1': 20,
               'custom:none': 500, 'custom:scalar': 100, 'custom:pair': 50, 'explicit-stats': 50,
-              'op:reset': 100, 'op:reset-mid-period': 40, 'op:set_target': 100, 'alias:digitize': 20,
+              'op:reset': 100, 'op:rejected-call-before-the-first-quantised-block': 60, 'op:reset-mid-period': 40, 'op:set_target': 100, 'alias:digitize': 20,
               'scale:tiny': 50, 'scale:huge': 50, 'scale:extreme': 50, 'tail:scaled': 100, 'tail:last': 50,
               'call:refresh': 1000, 'call:cached': 1000, 'call:cached:period<=0': 200, 'call:refresh:later-period': 200,
               'zero-variance-judged': 50, 'twin:imag-replaced': 20, 'twin:real-replaced': 20,
@@ -207,6 +207,10 @@ def gen_cases(seed, tier):
                     sc_ = float(rng.uniform(8, 30))
                     q_.update(int_dtype=True, parts=[dict(dist='gauss', loc=float(rng.uniform(-40, 40)), scale=sc_, seed=int(rng.integers(2 ** 31)))],
                               custom=float(sc_ * rng.uniform(0.7, 1.5)))
+        if stateful and period <= 0 and common.stratum(i, 99, 3) == 0:
+            # a block the quantiser cannot take (empty / missing) is offered before the first block it can: with a
+            # non-positive period the estimates still come from the first block that IS quantised, and only from it
+            ops.insert(0, dict(op='rejected', how=str(common.pick(rng, ['empty', 'none']))))
         cases.append(dict(api=api, bits=bits, period=period, window=ncl, N=int(N), L=L, fwhm=fwhm, tm=tm, zv=zv,
                           scale=sname, ops=ops, twin=bool(api == 'complex' and common.stratum(i, 96, 2) == 0 and hl <= 12),
                           twin_part=int(common.stratum(i, 97, 2)), sub=int(rng.integers(2 ** 31))))
@@ -502,6 +506,15 @@ def run_case(c, R):
                 twin._reset_cache()
             for s_ in sh:
                 s_.reset()
+            continue
+        if op['op'] == 'rejected':
+            R.bucket('op:rejected-call-before-the-first-quantised-block')
+            for obj in [q] + ([twin] if twin is not None else []):
+                try:
+                    obj.quantize(None if op['how'] == 'none' else np.array([], dtype=complex if cx else float))
+                    R.count('unusable_blocks_accepted')
+                except Exception:                           # noqa  (how it is refused is not the property's business)
+                    R.count('unusable_blocks_refused')
             continue
         if op['op'] == 'set_target':
             R.bucket('op:set_target')
